@@ -8,6 +8,8 @@
 #include <stdbool.h>
 #include <stdio.h>
 #include <stdlib.h>
+#define OUT_X_ARG(ap) va_arg(ap, unsigned char)
+#define OUT_CAP 200
 #include "out_model.h"
 void verif_noreturn(void);
 #define fatal(...) verif_noreturn()
@@ -16,17 +18,17 @@ void verif_noreturn(void);
 
 extern int g_no_error;
 
-#define LITCAP 100
+#define LITCAP 70
 static char g_litbuf[LITCAP + 1];
 
-/* a token spelling of n characters (n <= LITCAP): the first 8 from one scalar (no NUL among them), the rest 'y' */
+/* a token spelling of n characters (n <= LITCAP): the first 4 from one scalar (no NUL among them), the rest 'y' */
 static char *
 mk_spelling(u64 chars, size_t n)
 {
 	size_t i;
 
 	for (i = 0; i < LITCAP; i++) {
-		char c = i < 8 ? (char)(chars >> (8 * i)) : 'y';
+		char c = i < 4 ? (char)(chars >> (8 * i)) : 'y';
 
 		__CPROVER_assume(i >= n || c != 0);
 		g_litbuf[i] = i < n ? c : 0;
